@@ -1,2 +1,152 @@
-(* P_C16.v — placeholder while the model is validated *)
+(* P_C16.v — property C16: hot reload is coherent (dependents are re-prepared
+   after every change).  Statements only; proofs are in proofs/Loop_proofs.v.
+   Model: model/Loop.v (src/koreo/cache.py + the part of src/koreo/registry.py
+   it uses + the asyncio ready queue / tasks / LifoQueue underneath).
+
+   Everything is stated for EVERY history [ops] of the driver (Offer / Delete /
+   Yield in any order, i.e. every placement of the operations relative to
+   event-loop turns) run from the empty system, and for EVERY iteration order
+   [ord] of the subscriber sets.
+
+   Hypotheses (also listed in the evidence file):
+   - [wf_op]: declared dependencies are acyclic — a resource only declares
+     resources with a larger index (so SubscriptionCycle is never raised);
+   - built into the model: time.monotonic() is strictly increasing ([tick]);
+     preparers are atomic and do not raise. *)
+From Coq Require Import List Permutation Lia.
 From Koreo Require Import Loop Loop_proofs.
+Import ListNotations.
+Local Open Scope nat_scope.
+Local Open Scope list_scope.
+
+(* notify_subscribers iterates over a set: any order, but each member once *)
+Definition set_order (ord : nat -> list nat -> list nat) : Prop :=
+  forall t l, Permutation (ord t l) l.
+
+(* the histories the property quantifies over *)
+Definition history (ops : list op) : Prop := Forall wf_op ops.
+
+(* ---- watch_inv, cached half: "a re-offered one is watched again".
+   In every reachable state a cached entry is subscribed to exactly its declared
+   dependencies (both dicts agree), has a registered queue that is not shut down
+   and holds no Kill, and — when it declares dependencies — has a re-prepare
+   task in _REPREPARE_TASKS that is not finished, not cancelled, and is either
+   about to start (start handle pending), suspended in queue.get() on the
+   entry's CURRENT queue with that queue empty, or woken with its wake-up
+   handle pending ([watched]). *)
+Theorem C16_watch_cached : forall ord, set_order ord -> forall ops, history ops ->
+  forall k e, cache (run ord ops) k = Some e ->
+  subs (run ord ops) k = dedup (c_deps e) /\
+  (forall d, In d (c_deps e) <-> In k (rsubs (run ord ops) d)) /\
+  (exists q, queues (run ord ops) k = Some q /\ q_shut (heap (run ord ops) q) = false /\
+             ~ In EKill (q_items (heap (run ord ops) q))) /\
+  (c_deps e <> [] -> exists tid, watched (run ord ops) k tid).
+Proof. exact watch_cached_thm. Qed.
+
+(* ---- watch_inv, other half: "a deleted resource leaves no watcher behind".
+   A key that is not cached has no subscriptions (in either dict), no
+   registered queue and no entry in _REPREPARE_TASKS — in every reachable state,
+   not only once the ready queue has drained. *)
+Theorem C16_watch_uncached : forall ord, set_order ord -> forall ops, history ops ->
+  forall k, cache (run ord ops) k = None ->
+  subs (run ord ops) k = [] /\ (forall d, ~ In k (rsubs (run ord ops) d)) /\
+  queues (run ord ops) k = None /\ rtasks (run ord ops) k = None.
+Proof. exact watch_uncached_thm. Qed.
+
+(* ... and every task that is not the current re-preparer of its resource is
+   finished, or was cancelled and only has its last step left in the ready
+   queue (so once the ready queue has drained, all such tasks are finished) *)
+Theorem C16_no_stale_watcher : forall ord, set_order ord -> forall ops, history ops ->
+  forall tid, rtasks (run ord ops) (t_key (tasks (run ord ops) tid)) <> Some tid ->
+  t_status (tasks (run ord ops) tid) = TDone \/
+  (t_cancel (tasks (run ord ops) tid) = true /\
+   ((t_status (tasks (run ord ops) tid) = TNew /\ In (HStart tid) (ready (run ord ops))) \/
+    (t_status (tasks (run ord ops) tid) = TWoken /\ In (HWake tid) (ready (run ord ops))))).
+Proof. exact no_stale_watcher_thm. Qed.
+
+(* no exception escapes an operation or a task, no fuel runs out, no handle
+   meets a task in an impossible state *)
+Theorem C16_no_error : forall ord, set_order ord -> forall ops, history ops ->
+  err (run ord ops) = None.
+Proof. exact no_error_thm. Qed.
+
+(* ---- pending_inv: "every cached resource that declared a dependency on it is
+   prepared again afterwards".  For a cached R and a declared dependency d,
+   either R saw the current generation of d, or R's registered queue holds an
+   event newer than R's prepare time AND R's live monitor has its start or
+   wake-up handle in the ready queue (it will take that event at the next
+   turn). *)
+Theorem C16_pending : forall ord, set_order ord -> forall ops, history ops ->
+  forall R e d g, cache (run ord ops) R = Some e -> In (d, g) (c_seen e) ->
+  g = gens (run ord ops) d \/
+  (newer (run ord ops) R /\
+   exists tid, watched (run ord ops) R tid /\
+               (In (HStart tid) (ready (run ord ops)) \/ In (HWake tid) (ready (run ord ops)))).
+Proof. exact pending_thm. Qed.
+
+(* the generations an entry recorded are those of exactly its declared dependencies *)
+Theorem C16_seen_covers_deps : forall ord, set_order ord -> forall ops, history ops ->
+  forall R e, cache (run ord ops) R = Some e -> map fst (c_seen e) = c_deps e.
+Proof. exact seen_covers_deps_thm. Qed.
+
+(* ---- idle_coherent (THE PROPERTY): "once the system is idle each cached entry
+   was built from the current state of everything it depends on".  Idle = the
+   ready queue is empty and no registered queue holds an event newer than its
+   owner's prepare time.  Since EVERY cached entry is coherent with its direct
+   dependencies, each is transitively built from the current state of
+   everything it depends on. *)
+Theorem C16_idle_coherent : forall ord, set_order ord -> forall ops, history ops ->
+  ready (run ord ops) = [] -> (forall R, ~ newer (run ord ops) R) ->
+  coherent (run ord ops).
+Proof. exact idle_coherent_thm. Qed.
+
+(* stronger: an empty ready queue is enough (a newer event in the queue of an
+   entry with dependencies always comes with a scheduled monitor step) *)
+Theorem C16_quiescent_coherent : forall ord, set_order ord -> forall ops, history ops ->
+  ready (run ord ops) = [] -> coherent (run ord ops).
+Proof. exact quiescent_coherent_thm. Qed.
+
+(* ---- non-vacuity: the delete-and-re-offer history that was incoherent before
+   the repair (offer D; offer R(deps=[D]); delete R; one turn; offer R; offer
+   D(new)), followed by three turns: it is a [history], it reaches an empty
+   ready queue, R (= 0) is cached, watched and saw D's (= 1) current
+   generation, which is its second. *)
+Definition id_order (t : nat) (l : list nat) : list nat := l.
+
+Example C16_nonvacuous :
+  let ops := [Offer 1 1 []; Offer 0 1 [1]; Delete 0; Yield; Offer 0 2 [1]; Offer 1 2 [];
+              Yield; Yield; Yield] in
+  let s := run id_order ops in
+  set_order id_order /\ history ops /\ ready s = [] /\
+  (exists e, cache s 0 = Some e /\ c_deps e = [1] /\ c_seen e = [(1, 2)]) /\
+  gens s 1 = 2 /\ subs s 0 = [1] /\ rsubs s 1 = [0] /\
+  (exists tid, rtasks s 0 = Some tid /\ t_status (tasks s tid) = TWaiting) /\
+  err s = None.
+Proof.
+  cbv zeta. split; [intros t l; apply Permutation_refl | ].
+  split; [unfold history; repeat (apply Forall_cons;
+            [simpl; unfold upward_deps; simpl; intros; intuition lia | ]); apply Forall_nil | ].
+  vm_compute. repeat split; eauto.
+Qed.
+
+(* ... and one turn earlier the entry is stale but pending: the hypothesis of
+   C16_idle_coherent does not hold vacuously *)
+Example C16_nonvacuous_pending :
+  let ops := [Offer 1 1 []; Offer 0 1 [1]; Yield; Offer 1 2 []] in
+  let s := run id_order ops in
+  (exists e, cache s 0 = Some e /\ c_seen e = [(1, 1)]) /\ gens s 1 = 2 /\
+  ready s <> [] /\ newer s 0.
+Proof.
+  cbv zeta. split; [vm_compute; eauto | ]. split; [vm_compute; reflexivity | ].
+  split; [vm_compute; discriminate | ].
+  exists 1, 4, 1, 8. vm_compute. repeat split; auto.
+Qed.
+
+Print Assumptions C16_watch_cached.
+Print Assumptions C16_watch_uncached.
+Print Assumptions C16_no_stale_watcher.
+Print Assumptions C16_no_error.
+Print Assumptions C16_pending.
+Print Assumptions C16_seen_covers_deps.
+Print Assumptions C16_idle_coherent.
+Print Assumptions C16_quiescent_coherent.
